@@ -47,6 +47,7 @@ def run(rep, progs, tier):
         "from the key. Decides these necessary conditions, not the sequence semantics as a whole.")
     for r, t in (("C14.fields", "literal -> builder field table equals the protocol table; everything else is a tag"),
                  ("C14.boundary", "entry-boundary predicate ⊆ keys the start handler accepts; only `file` sets the URL"),
+                 ("C14.reset", "an entry boundary replaces the whole builder state (no attribute leaks into the next song)"),
                  ("C14.legacy-time", "write from Time guarded by duration.is_none(); write from duration unguarded"),
                  ("C14.mapping", "each field of the produced SongInQueue/Song derives from the builder field of the same meaning"),
                  ("C14.flush", "every Some from the per-field step and the final finish() reach push; single = finish()"),
@@ -63,7 +64,11 @@ def one(rep, prog, cfg):
     st = body_by_name(prog, B + "handle_start_field")
     isf = body_by_name(prog, "mpd_client::responses::song::is_start_field")
     fld = body_by_name(prog, B + "field")
-    into = body_by_name(prog, B + "into_song")
+    # the function that turns the builder into a song: found by what it constructs, not by name
+    into = [b for b in prog.bodies.values() if b.kind in ("Fn", "AssocFn") and not b.raw.get("derived")
+            and norm(b.name).startswith(B) and any(
+                s["k"] == "assign" and s["rv"]["k"] == "agg" and s["rv"].get("adt_name", "").endswith("responses::song::SongInQueue")
+                for _, _, s in b.stmts())]
     fin = body_by_name(prog, B + "finish")
     for name, l in (("handle_song_field", hs), ("handle_start_field", st), ("is_start_field", isf), ("field", fld),
                     ("into_song", into), ("finish", fin)):
@@ -71,6 +76,7 @@ def one(rep, prog, cfg):
             rep.fail("C14.anchor", "%s/%s" % (cfg, name), "song.rs", "SongBuilder machinery changed: %s not found exactly once" % name)
             return
     hs, st, isf, fld, into, fin = hs[0], st[0], isf[0], fld[0], into[0], fin[0]
+    INTO = norm(into.name)
 
     # ---- C14.fields ------------------------------------------------------------------------
     cmps = tables.str_compares(hs)
@@ -113,10 +119,23 @@ def one(rep, prog, cfg):
             t = hs.blocks[bb]["t"]
             if t["k"] == "call":
                 calls.update(callee_names(t))
-        ok = (B + "into_song") in calls and (B + "handle_start_field") in calls and not got[k]
+        ok = INTO in calls and (B + "handle_start_field") in calls and not got[k]
+        # the builder is reset wholesale (mem::take / mem::replace of *self), not field by field
+        reset = False
+        for bb in cases[k]:
+            t = hs.blocks[bb]["t"]
+            if t["k"] == "call" and any(n in ("core::mem::take", "core::mem::replace") for n in callee_names(t)):
+                a = op_local(t["args"][0])
+                for bb2, i2, s2 in hs.stmts():
+                    if s2["k"] == "assign" and s2["place"]["l"] == a and s2["rv"]["k"] == "ref" and s2["rv"]["place"]["l"] in selfs \
+                            and s2["rv"]["place"]["p"] == ["*"]:
+                        reset = True
+        rep.check(reset, "C14.reset", "%s/%s resets the whole builder" % (cfg, k), hs.loc(hs.span),
+                  "on entry key %r the builder is not replaced wholesale (mem::take/mem::replace of *self): "
+                  "an attribute of the finished song can leak into the next one" % k)
         rep.check(ok, "C14.boundary", "%s/%s completes the song" % (cfg, k), hs.loc(hs.span),
                   "entry key %r does not complete the current song and restart (calls: into_song=%s start=%s, direct writes=%s)"
-                  % (k, (B + "into_song") in calls, (B + "handle_start_field") in calls, sorted(got[k])))
+                  % (k, INTO in calls, (B + "handle_start_field") in calls, sorted(got[k])))
 
     # ---- C14.boundary: is_start_field ⊆ accepted by handle_start_field; only file sets url -----------
     icases, icells = tables.string_cases(isf, extra_cells=ENTRY_STARTS)
@@ -195,20 +214,32 @@ def one(rep, prog, cfg):
 
 
 def field_of_self(body, local, depth=8):
-    """If `local` is (a wrapper around) a move/copy of a field of the by-value `self` (_1): name."""
+    """If `local` is (a wrapper around) a move/copy/take of a field of `self` (_1, by value or by
+    reference): the field's name."""
     for _ in range(depth):
         defs = [s for bb, i, s in body.stmts() if s["k"] == "assign" and s["place"]["l"] == local and not s["place"]["p"]]
-        if len(defs) != 1:
+        cdefs = [t for bb, t in body.calls() if t["dest"]["l"] == local and not t["dest"]["p"]]
+        if len(defs) + len(cdefs) != 1:
+            return None
+        if cdefs:
+            t = cdefs[0]
+            if any(n in ("core::mem::take", "core::mem::replace", "core::option::Option::take", "core::clone::Clone::clone")
+                   for n in callee_names(t)) and t["args"]:
+                l2 = op_local(t["args"][0])
+                if l2 is None:
+                    return None
+                local = l2
+                continue
             return None
         rv = defs[0]["rv"]
-        if rv["k"] == "use":
-            p = op_place(rv["op"])
+        if rv["k"] in ("use", "ref"):
+            p = op_place(rv["op"]) if rv["k"] == "use" else rv["place"]
             if p is None:
                 return None
             if p["l"] == 1:
                 fs = [e["n"] for e in p["p"] if isinstance(e, dict) and "f" in e]
                 return fs[0] if len(fs) == 1 else None
-            if p["p"]:
+            if p["p"] not in ([], ["*"]):
                 return None
             local = p["l"]
         elif rv["k"] == "agg" and len(rv["ops"]) == 1 and rv["agg"] == "adt" and rv["adt_name"].endswith(("SongPosition", "SongId")):
